@@ -5,12 +5,12 @@ PLAN = dict(
     level="exploration",
     rule="case = generated queue program (concurrent_queue or concurrent_bounded_queue capacity 1-4, 2-4 threads x 1-7 ops from push/emplace/try_push/"
          "pop/try_pop/abort, six element sizes = all items-per-page classes, 0-70 pre-filled items so operations straddle page boundaries, optional "
-         "throwing element constructor) x generated schedule; judged by a Wing-Gong linearizability search against a (bounded) FIFO model with "
+         "throwing element constructor or failing page allocation) x generated schedule; judged by a Wing-Gong linearizability search against a (bounded) FIFO model with "
          "pending operations, plus O(n) conservation / at-most-once / lost-wake-up checks; non-trivial = at least two operations overlapped in time; "
          "distinct = hash of program text + schedule descriptor. 'excluded' counts cases inside the two known-finding shapes (judged OK without check).",
     assumptions=SC_TSO + ["histories longer than 26 operations get only the O(n) checks",
                           "known findings C09-abort-pop-window and C09-dead-slot-capacity are excluded from the generated domain (counted) and reported by witness legs",
-                          "set_capacity concurrent with other operations and allocation failure of a page are not generated yet"],
+                          "set_capacity concurrent with other operations is not generated; page-allocation failure is (not together with abort(): DESIGN 11.17)"],
     floor=dict(quick=300, thorough=2000),
     tiers=dict(
         quick=[det("rel", H, "cs-rel", 16, 220, 4, tso=True, time_cap=30),
